@@ -49,13 +49,13 @@ PROPS = {
         "outside": ["real Arc reference counting and real thread identity (axioms; exercised only by the native replay)", "event sequences are covered inductively: one step from an arbitrary state"],
     },
     "C11": {
-        "mirsym": ["teardown", "drop_flags", "locked_closures"],
+        "mirsym": ["teardown", "drop_flags", "locked_closures", "call_path", "eval_generic"],
         "bounds": {"quick": "all inputs of teardown/Drop (see C09); every MutexIsh::locked call site in the crate's MIR"},
         "assumptions": COMMON_MIR + ["thread::panicking() is an environment boolean; a panic is a terminal outcome of the path (unwinding is not executed symbolically)"],
         "outside": ["executing an unwind (the native replay does: child processes must exit 101, not SIGABRT)", "after a caught user panic the mock remains usable: argued from C01/C04 step facts"],
     },
     "C08": {
-        "mirsym": ["induce_panic", "teardown", "teardown_wrappers", "display_call"],
+        "mirsym": ["induce_panic", "teardown", "teardown_wrappers", "display_call", "output_containers", "eval_generic"],
         "bounds": {"quick": "induce_panic / handle_error / Continuation::report from an arbitrary state with any error value; teardown for all inputs (see C09)"},
         "assumptions": COMMON_MIR + ["the Mutex is an atomic block (its internals are trusted)"],
         "outside": ["errors racing from several threads", "message text", "the no_std `panicked` flag"],
@@ -73,7 +73,7 @@ PROPS = {
         "outside": ["the two compile-time rejections (type checker): ordered patterns only with exact counts, then() only after an exact count"],
     },
     "C18": {
-        "mirsym": ["assembler", "drop_flags", "eval_dyn", "statics", "induce_panic", "construction", "teardown", "delegators", "tuples"],
+        "mirsym": ["assembler", "drop_flags", "eval_dyn", "statics", "induce_panic", "construction", "teardown", "delegators", "tuples", "call_path", "fn_mocker_verify"],
         "bounds": {"quick": "every sequence of <=3 pushes (thorough 4) over 2 (thorough 3) methods; adjacent-swap lemma at every position; Clone::clone data flow; eval_dyn table lookup with symbolic keys"},
         "assumptions": COMMON_MIR + ["BTreeMap modelled as a finite map; iteration order abstracted (no decision in the crate depends on it except the wording of an error message)"],
         "outside": ["generic instantiation distinctness is a property of TypeId (trusted)", "message text"],
@@ -98,7 +98,7 @@ PROPS = {
         "outside": ["patterns outside family G6 (the macro runs inside rustc: programs are covered per instantiation)", "3 or more top-level alternatives do not compile at all in this version (observed, not a soundness issue)"],
     },
     "C17": {
-        "mirsym": ["output_containers"],
+        "mirsym": ["output_containers", "builder_chains"],
         "bounds": {"quick": "return-type family (16 methods of one generated trait: owned, Option<owned>, &T, &str, &'static T, Option<&T>, Option<&str>, Result<&T,E>, Result<&[T],NonClone>, Vec<&T> with 0/1/2 elements, 2- and 3-tuples, Poll<Option<&T>>, Poll<Result<&T,Clone>>, Vec<Result<&T,NonClone>>, Option<Result<&T,E>>); output kind = the one the macro chose; every variant, all leaf values, two or three requests"},
         "assumptions": COMMON_KANI + COMMON_MIR + ["element counts are constants per harness (0, 1, 2): a Vec of symbolic length is an allocation of symbolic size"],
         "outside": ["return types outside the family; element counts above 3; nesting depth above 3"],
@@ -120,7 +120,7 @@ PROPS = {
         "outside": ["shapes outside the family, in particular &mut self, Pin<&mut Self> and by-value receivers (tool limit, measured)", "method-level generics and impl-Trait parameters", "async runtimes (futures are polled by hand with a no-op waker)"],
     },
     "C15": {
-        "mirsym": ["eval_dyn", "delegators", "teardown", "generated_forwarding"],
+        "mirsym": ["eval_dyn", "delegators", "teardown", "generated_forwarding", "eval_generic"],
         "bounds": {"quick": "&self provided method whose body calls a required method twice: all argument values, one call; decision table of eval_dyn for unmentioned / mentioned methods with a default body (see C07)"},
         "assumptions": COMMON_KANI + COMMON_MIR + ["scripted evaluator: first evaluation answers CallDefaultImpl, nested ones answer with a typed function and record the state identity they were given",
                                                    "once_cell::sync::OnceCell replaced by once_cell's unsync cell under cfg(kani) (helper initialisation)"],
@@ -139,7 +139,7 @@ PROPS = {
         "outside": ["rendered message text (formatting is stubbed under Kani and opaque for E1): wording, separators, '?' glyph", "file!()/line!() values beyond equality with the invocation site"],
     },
     "C20": {
-        "mirsym": ["mirror_wiring", "eval_dyn", "delegators"],
+        "mirsym": ["mirror_wiring", "eval_dyn", "delegators", "assembler", "fn_mocker_verify"],
         "bounds": {"quick": "every trait mirrored under src/mock (core, std, embedded-hal 1, tokio 1, futures-io 0.3: all features on) and every method of each: entry-point wiring, provided/required classification against the UPSTREAM trait definition (rust-src / cargo registry sources), helper impl = required methods only, MockFnInfo flags; fall-through decisions for unmentioned provided methods: eval_dyn table"},
         "assumptions": COMMON_MIR + ["upstream trait definitions are read from the installed rust-src and the cargo registry sources (the versions Cargo.lock pins)",
                                      "structural obligations over the MIR of the generated impls (callee identity per method), no symbolic inputs are needed for wiring"],
